@@ -16,7 +16,7 @@
    Without the hypothesis history independence is false for the code as it is
    (known finding collision-bucket-insertion-order): Pinned.bucket_order_refuted. *)
 From Coq Require Import List ZArith Bool Sorted Lia.
-From GZ Require Import C15.Model C15.Cluster C15.Conc C15.Check C15.Proofs C15.ProofsB C15.ProofsC C15.ProofsD C15.ProofsE C15.ProofsF C15.Pinned.
+From GZ Require Import C15.Model C15.Cluster C15.Conc C15.Check C15.Proofs C15.ProofsB C15.ProofsC C15.ProofsD C15.ProofsE C15.ProofsF C15.ProofsG C15.Pinned.
 Import ListNotations.
 Open Scope Z_scope.
 
@@ -510,3 +510,59 @@ Example conc_case_example :
   let c := mkConc 2 t steps [(5, 1); (25, 0)] (model_obs_k (mkConc 2 t steps [(5, 1); (25, 0)] [])) in
   table_ok t 2 = true /\ agrees (ConcCase c) = true /\ prop_ok (ConcCase c) = true.
 Proof. vm_compute. auto. Qed.
+
+(* ======== round 4: the VALUE of a member ========================================================
+   Node identity is the repr; what a lookup returns is the value handed to the LATEST add-type call of
+   that repr.  [history_independent] above is stated over the map repr |-> (effective replicas, value)
+   ([amap_run]: a later add of the repr overwrites count AND value), so two histories that end with the same
+   (repr, value, count) triples answer alike.  Explicitly, for EVERY hash function and history: after an
+   add-type call on x — whatever the ring held for that repr before (another value with the same repr,
+   the same effective count or another, nothing) — and any later operations on other reprs, a lookup
+   answered with a value of that repr is answered with x itself.  No collision-freeness needed. *)
+Theorem latest_value_wins : forall vh R pre o post hp ihp y,
+  is_add o = true ->
+  forallb (fun o' => negb (nrepr (op_node o') =? nrepr (op_node o))) post = true ->
+  get (run vh R (pre ++ o :: post)) hp ihp = GSome y ->
+  nrepr y = nrepr (op_node o) -> y = op_node o.
+Proof. exact latest_value_wins_l. Qed.
+Print Assumptions latest_value_wins.
+
+(* int 7 (value 0) with 50 %, then the string "7" (value 1) with the same 50 %, then another node: key
+   7010 is answered with value 1 *)
+Example latest_value_example :
+  get (run cf_hash 100 [OAddW (mkNode 7 0) 50; OAddW (mkNode 7 1) 50; OAdd (mkNode 9 2)]) 710 0 = GSome (mkNode 7 1).
+Proof. vm_compute. reflexivity. Qed.
+
+(* ======== round 4: node identity (Repr.v — lang.Repr, innerRepr, the virtual-node strings) ==========
+   The strings of one node's virtual nodes, repr ++ itoa(i), are pairwise different (decimal rendering
+   is injective): with a hash function that is injective on them, a node added with r replicas holds r
+   distinct slots.  (Different NODES can share strings — "1"+"10" = "11"+"0": the known finding.) *)
+Theorem vnode_strings_injective : forall v i j, 0 <= i < 10 ^ 40 -> 0 <= j < 10 ^ 40 ->
+  vnode_text v i = vnode_text v j -> i = j.
+Proof. exact vnode_text_inj_l. Qed.
+Print Assumptions vnode_strings_injective.
+
+(* the identity check is no oracle: if the strings the ring hashes for every value are the model's
+   ([agrees]) then every clause of [prop_ok] on them holds *)
+Theorem identity_agrees_implies_prop_ok : forall l, (forall e, In e l -> idx_ok e) ->
+  agrees (ReprCase l) = true -> prop_ok (ReprCase l) = true.
+Proof. exact agrees_p_implies_prop_ok_p_l. Qed.
+Print Assumptions identity_agrees_implies_prop_ok.
+
+(* int8(-3), the string "-3" (same node), []byte "ab" (another node, inner text [97 98]), a **int *)
+Example identity_example :
+  let mk v := mkPval v (repr_model v) (repr_model v)
+                     (match inner_model 16777619 v with Some s => s | None => [48; 120] end)
+                     [(0, vnode_text v 0); (10, vnode_text v 10)] [(0, vnode_text v 0); (10, vnode_text v 10)] in
+  let l := [mk (VInt (-3)); mk (VStr [45; 51]); mk (VBytes [97; 98]); mk (VPtrInt 7); mk (VFloat false [50] [53])] in
+  (forall e, In e l -> idx_ok e) /\ agrees (ReprCase l) = true /\ prop_ok (ReprCase l) = true /\
+  repr_model (VInt (-3)) = [45; 51] /\ inner_model 16777619 (VBytes [97; 98]) = Some [49; 54; 55; 55; 55; 54; 49; 57; 58; 91; 57; 55; 32; 57; 56; 93].
+Proof.
+  assert (Hk : forall v a b, idx_ok (mkPval v a a b [(0, vnode_text v 0); (10, vnode_text v 10)]
+                                             [(0, vnode_text v 0); (10, vnode_text v 10)])).
+  { intros v a b. unfold idx_ok. cbn [p_adds p_rems map fst]. split; [reflexivity|]. split.
+    - constructor; [cbn; intuition lia|]. constructor; [cbn; tauto | constructor].
+    - repeat constructor; lia. }
+  cbv zeta. split; [|vm_compute; auto].
+  intros e H. repeat (destruct H as [<-|H]; [apply Hk|]). destruct H.
+Qed.
